@@ -21,7 +21,8 @@ REQUIRED_THEOREMS = [
 ]
 RULE = ("orders 1..32 x generator classes {dense, scaled dense, integer with known solution, SPD, symmetric "
         "indefinite with positive diagonal, diagonally dominant, permuted/scaled triangular, graded to cond 1e10, "
-        "tiny leading pivot} x 1..6 right-hand sides x every entry point (solve, solve_sys, invert_matrix, "
+        "tiny leading pivot, adversarial pivot columns (tiny diagonal, O(1) maximum mid-column, small decoys below), "
+        "sparse SPD (arrowhead, banded, block)} x 1..6 right-hand sides x every entry point (solve, solve_sys, invert_matrix, "
         "Matrix::solve for Vector and Matrix, Matrix::inv) plus explicit LU / Cholesky routes; "
         "non-trivial = distinct (op, class, order, nrhs)")
 EXHAUSTIVE = {"quick": False, "thorough": False}
@@ -327,7 +328,108 @@ def g_scaled(rng, n):
     return A
 
 
+
+def g_advpivot(rng, n):
+    """Adversarial for any weakened pivot search, harmless for true partial pivoting: a well-conditioned
+    O(1) matrix in which a leading pivot column has a tiny diagonal entry (1e-12..1e-6), its maximum O(1)
+    at a middle row (or: tied maxima / maximum in the last row), and rows below the maximum whose entry in
+    that column is slightly larger than the diagonal but << 1 (1e-9..1e-4) while the rest of the row is O(1).
+    Choosing one of those rows as pivot gives multipliers ~1/entry and unbounded element growth."""
+    n = max(n, 3)
+    A = [rng.normal() for _ in range(n * n)]
+    for i in range(n):                       # keep it comfortably conditioned away from the pivot columns
+        A[i * n + i] += rng.choice([-1.0, 1.0]) * 2.0
+    variant = rng.choice(["mid", "mid", "mid", "ties", "last", "second", "two"])
+    cols = [0]
+    if variant == "second":
+        for i in range(1, n):
+            A[i * n] = 0.0
+        A[0] = rng.choice([-1.0, 1.0]) * rng.uniform(1.0, 2.0)
+        cols = [1]
+    elif variant == "two" and n >= 5:
+        cols = [0, 1]
+    prev_m = None
+    for c in cols:
+        rows = list(range(c, n))             # rows taking part in the search of column c
+        d = rng.choice([-1.0, 1.0]) * 10.0 ** rng.uniform(-12, -6)
+        big = rng.choice([-1.0, 1.0]) * rng.uniform(1.0, 2.0)
+        if variant == "last":
+            m = n - 1
+        else:
+            m = rng.randint(c + 1, n - 2) if n - 2 >= c + 1 else c + 1
+        for r in rows:
+            A[r * n + c] = rng.uniform(-0.9, 0.9) * abs(big) * rng.choice([1.0, 0.3, 1e-2])
+        A[c * n + c] = d
+        A[m * n + c] = big
+        if variant == "ties":
+            for r in rows[1:]:
+                if r != m and rng.chance(0.4):
+                    A[r * n + c] = abs(big) * rng.choice([-1.0, 1.0])
+        below = [r for r in rows if r > m]
+        for k, r in enumerate(below):
+            if r == n - 1 or rng.chance(0.6):
+                e = 10.0 ** rng.uniform(-9, -4)
+                A[r * n + c] = rng.choice([-1.0, 1.0]) * max(e, 10.0 * abs(d))
+        if prev_m is not None:
+            A[prev_m * n + c] = 0.0          # the first elimination step leaves this column alone
+        prev_m = m
+    return A
+
+
+def g_arrow_spd(rng, n):
+    """SPD arrowhead with the dense row/column FIRST: exact zeros elsewhere off the diagonal, complete fill-in in L"""
+    if n == 1:
+        return [rng.uniform(0.5, 2.0)]
+    v = [rng.normal() or 1.0 for _ in range(n - 1)]
+    D = [rng.uniform(0.5, 2.0) for _ in range(n - 1)]
+    A = [0.0] * (n * n)
+    A[0] = math.fsum(v[i] * v[i] / D[i] for i in range(n - 1)) + rng.uniform(0.5, 2.0)
+    for i in range(1, n):
+        A[i] = v[i - 1]
+        A[i * n] = v[i - 1]
+        A[i * n + i] = D[i - 1]
+    return A
+
+
+def g_band_spd(rng, n):
+    """SPD with nonzeros only on the diagonal and at offsets 1 and k (fill-in appears at the offsets in between)"""
+    k = rng.randint(2, max(2, min(6, n - 1)))
+    A = [0.0] * (n * n)
+    for i in range(n):
+        for off in (1, k):
+            j = i - off
+            if j >= 0:
+                v = rng.normal() or 0.5
+                A[i * n + j] = v
+                A[j * n + i] = v
+    for i in range(n):
+        A[i * n + i] = sum(abs(A[i * n + j]) for j in range(n) if j != i) + rng.uniform(0.05, 1.0)
+    return A
+
+
+def g_block_spd(rng, n):
+    """block-diagonal dense SPD blocks (exact zero off-diagonal blocks) coupled through a sparse first row"""
+    A = [0.0] * (n * n)
+    start = 0
+    while start < n:
+        sz = min(n - start, rng.randint(1, 5))
+        S = g_spd(rng, sz, rng.choice([1.0, 0.1]))
+        for i in range(sz):
+            for j in range(sz):
+                A[(start + i) * n + start + j] = S[i * sz + j]
+        start += sz
+    for j in range(1, n):
+        if A[j] == 0.0 and rng.chance(0.5):
+            w = rng.normal() / 2
+            A[j] = w
+            A[j * n] = w
+            A[0] += abs(w)
+            A[j * n + j] += abs(w)
+    return A
+
+
 CLASSES = {
+    "advpivot": g_advpivot, "arrow_spd": g_arrow_spd, "band_spd": g_band_spd, "block_spd": g_block_spd,
     "dense": g_dense, "int": g_int, "spd": g_spd, "symindef": g_symindef, "diagdom": g_diagdom,
     "diagdom_sym": lambda r, n: g_diagdom(r, n, True), "tri": g_tri, "graded": g_graded,
     "graded_spd": lambda r, n: g_graded(r, n, 8, True), "tinypivot": g_tinypivot, "scaled": g_scaled,
@@ -392,6 +494,8 @@ def gen(rng, tier):
         n = order(rng, tier)
         if it < 64:
             n = 1 + it % 32
+        if cls == "advpivot":
+            n = rng.randint(3, 16)
         A = CLASSES[cls](rng, n)
         ncol = rng.randint(1, 6)
         B = rhs(rng, A, n, ncol, cls)
@@ -419,6 +523,13 @@ def gen(rng, tier):
             lines.append("issym %s" % vec(A))
             lines.append("r2c %s %d" % (vec(B), n))
             lines.append("c2r %s %d" % (vec(B), n))
+        if cls == "advpivot":
+            # every Matrix and slice entry point sees the pivot-critical input
+            for l in single:
+                if l not in lines[-2:]:
+                    lines.append(l)
+            lines.append("mlu %d %d %s" % (n, n, vec(A)))
+            lines.append("lu %s" % vec(A))
         if it % 7 == 0:
             lines.append("lu %s" % vec(A))
     # shape errors and degenerate sizes: panics must agree with the model
